@@ -33,7 +33,25 @@ def layout(a, kind, rng):
 def snap(x):
     if isinstance(x, np.ndarray):
         return ("nd", x.shape, x.dtype.str, x.strides, x.flags.writeable, x.flags.c_contiguous, x.tobytes())
-    return ("py", copy.deepcopy(x))
+    if isinstance(x, dict):
+        return ("dict", id(x), tuple((k, snap(v)) for k, v in x.items()))
+    if isinstance(x, (list, tuple)):
+        return (type(x).__name__, id(x), tuple(snap(v) for v in x))
+    return ("py", type(x).__name__, copy.deepcopy(x))
+
+
+def kw_variants(kw, rng):
+    """the same sizes / options passed as other object kinds (numpy scalars, 0-d and 1-d arrays, lists): einx must not touch any of them"""
+    yield "as-given", dict(kw)
+    ints = [k for k, v in kw.items() if isinstance(v, int) and not isinstance(v, bool)]
+    seqs = [k for k, v in kw.items() if isinstance(v, (list, tuple)) and all(isinstance(q, int) for q in v)]
+    if ints or seqs:
+        alt = dict(kw)
+        for k in ints:
+            alt[k] = rng.choice([np.int64(kw[k]), np.asarray(kw[k]), np.asarray([kw[k]])[0:1].reshape(())])
+        for k in seqs:
+            alt[k] = rng.choice([np.asarray(list(kw[k])), list(kw[k])])
+        yield "numpy-valued sizes/options", alt
 
 
 def extra_cases():
@@ -65,31 +83,33 @@ def _work(args):
     for c in (extra_cases() if idx < 0 else corpus.corpus(seed * 100003 + idx, 24)):
         for lay in LAYOUTS:
             for be in c.backends[:2]:
-                ts, bases = [], []
-                for t in c.tensors:
-                    v, b = layout(t, lay, rng)
-                    ts.append(v)
-                    bases.append(b)
-                kw = dict(c.kwargs)
-                # sizes / options passed as mutable containers
-                kw_objs = {k: v for k, v in kw.items()}
-                before = [snap(t) for t in ts] + [snap(b) if b is not None else None for b in bases] + [snap(kw_objs)]
-                target = c.meta.get("inplace_target")
-                for graph in (False, True):
-                    o = harness.call_einx(c.op, c.desc, ts, dict(kw, graph=True) if graph else kw, be)
-                    after = [snap(t) for t in ts] + [snap(b) if b is not None else None for b in bases] + [snap(kw_objs)]
-                    changed = [i for i, (x, y) in enumerate(zip(before, after)) if x != y]
-                    n = len(ts)
-                    allowed = set() if (target is None or graph) else {target, n + target}
-                    bad = [i for i in changed if i not in allowed]
-                    status = "ok"
-                    if bad:
-                        which = [("argument %d" % i) if i < n else ("base array of argument %d" % (i - n)) if i < 2 * n else "keyword objects" for i in bad]
-                        status = "modified: " + ", ".join(which)
-                    elif o[0] == "exc" and "read-only" in o[2] and not (target is not None and lay == "readonly" and not graph):
-                        status = "raised on a read-only argument that einx must not write: " + o[2][:100]
-                    out.append((status, dict(c.describe(), layout=lay, graph=graph, replay={"fn": "vf.props.C09:replay", "args": [seed, idx, c.desc, lay, be, graph]}), be))
-                    before = after
+                for kwkind, kw in kw_variants(c.kwargs, rng):
+                    if kwkind != "as-given" and lay != "contiguous":
+                        continue
+                    ts, bases = [], []
+                    for t in c.tensors:
+                        v, b = layout(t, lay, rng)
+                        ts.append(v)
+                        bases.append(b)
+                    # sizes / options passed as mutable containers / numpy objects
+                    kw_objs = {k: v for k, v in kw.items()}
+                    before = [snap(t) for t in ts] + [snap(b) if b is not None else None for b in bases] + [snap(kw_objs)]
+                    target = c.meta.get("inplace_target")
+                    for graph in (False, True):
+                        o = harness.call_einx(c.op, c.desc, ts, dict(kw, graph=True) if graph else kw, be)
+                        after = [snap(t) for t in ts] + [snap(b) if b is not None else None for b in bases] + [snap(kw_objs)]
+                        changed = [i for i, (x, y) in enumerate(zip(before, after)) if x != y]
+                        n = len(ts)
+                        allowed = set() if (target is None or graph) else {target, n + target}
+                        bad = [i for i in changed if i not in allowed]
+                        status = "ok"
+                        if bad:
+                            which = [("argument %d" % i) if i < n else ("base array of argument %d" % (i - n)) if i < 2 * n else f"keyword objects ({kwkind}: contents, type or flags)" for i in bad]
+                            status = "modified: " + ", ".join(which)
+                        elif o[0] == "exc" and "read-only" in o[2] and not (target is not None and lay == "readonly" and not graph):
+                            status = "raised on a read-only argument that einx must not write: " + o[2][:100]
+                        out.append((status, dict(c.describe(), layout=lay, graph=graph, kwargs_form=kwkind, replay={"fn": "vf.props.C09:replay", "args": [seed, idx, c.desc, lay, be, graph]}), be))
+                        before = after
     return out
 
 
